@@ -71,6 +71,8 @@ def _step(ctx: Ctx, c: Collector) -> None:
     def truthy(t: Term) -> Optional[bool]:
         if t == ("cmp", "isnot", cur, T.NONE) or t == cur:
             return True
+        if t == ("cmp", "is", cur, T.NONE):
+            return False          # the function is only called while a step is being performed (and says so first)
         return None
 
     raises = [e for e in s.of_kind("raise") if e.idx > step_ev.idx]
